@@ -28,6 +28,7 @@ type Event struct {
 type ThreadTrace struct {
 	Threads [][]Event
 	Names   []string
+	Vector  []uint64 // inputs of the path the trace was recorded on (for the native race replay)
 }
 
 type tracer struct {
@@ -56,7 +57,11 @@ func (t *tracer) add(e Event) {
 }
 
 func (t *tracer) access(o *Object, idx int, write bool) {
-	// every object access is recorded; objects touched by one thread only are filtered out by the decider
+	// every object access is recorded; objects touched by one thread only are filtered out by the decider.
+	// Before the first goroutine is started nothing can race (those accesses precede every other thread).
+	if len(t.threads) == 1 {
+		return
+	}
 	k := "R"
 	if write {
 		k = "W"
@@ -121,6 +126,10 @@ func (it *Interp) spawn(fnv Val, args []Val, c *ssa.CallCommon) {
 	e := Event{Kind: "go", Child: tid}
 	it.evWhere(&e)
 	t.add(e)
+	if it.sched != nil {
+		it.schedSpawn(fnv, args, c, tid, name)
+		return
+	}
 	t.pending = append(t.pending, pendingGo{fn: fnv, args: args, call: c, tid: tid})
 }
 
@@ -199,6 +208,10 @@ func (it *Interp) chanEvent(kind string, ch *ChanObj) {
 }
 
 func (it *Interp) chanSend(ch *ChanObj, v Val) {
+	if it.sched != nil {
+		it.schedSend(ch, v)
+		return
+	}
 	if ch == nil {
 		it.endPath("thread blocked", false)
 	}
@@ -210,6 +223,9 @@ func (it *Interp) chanSend(ch *ChanObj, v Val) {
 }
 
 func (it *Interp) chanRecv(ch *ChanObj, commaOk bool, t types.Type) Val {
+	if it.sched != nil {
+		it.schedWaitRecv(ch)
+	}
 	if ch == nil {
 		it.endPath("thread blocked", false)
 	}
@@ -222,6 +238,7 @@ func (it *Interp) chanRecv(ch *ChanObj, commaOk bool, t types.Type) Val {
 	if len(ch.Buf) > 0 {
 		v := ch.Buf[0]
 		ch.Buf = ch.Buf[1:]
+		ch.Recvd++
 		it.chanEvent("recv", ch)
 		if commaOk {
 			return Tuple{v, Bool{C: true}}
@@ -235,6 +252,15 @@ func (it *Interp) chanRecv(ch *ChanObj, commaOk bool, t types.Type) Val {
 			return Tuple{z, Bool{C: false}}
 		}
 		return z
+	}
+	if ch.Ticker && ch.Budget > 0 {
+		ch.Budget--
+		it.chanEvent("tick", ch)
+		v := it.zeroVal(elem)
+		if commaOk {
+			return Tuple{v, Bool{C: true}}
+		}
+		return v
 	}
 	if it.tracer != nil && it.tracer.cur == 0 && len(it.tracer.pending) > 0 {
 		// the main thread would block: let the goroutines started so far run, then look again
@@ -287,6 +313,16 @@ func (it *Interp) selectOp(fr *frameState, x *ssa.Select) Val {
 	if !x.Blocking {
 		enabled = append(enabled, n) // default
 	}
+	if len(enabled) == 0 && it.sched != nil {
+		th := it.sched.threads[it.sched.cur]
+		for _, st := range x.States {
+			if ch, _ := it.get(fr, st.Chan).(*ChanObj); ch != nil && ch.Ticker {
+				th.onTicker = true
+			}
+		}
+		it.schedBlock("select in "+it.where(), func() bool { return !it.selectReady(fr, x) })
+		return it.selectOp(fr, x)
+	}
 	if len(enabled) == 0 {
 		if it.tracer.cur == 0 && len(it.tracer.pending) > 0 {
 			it.runPending()
@@ -325,6 +361,7 @@ func (it *Interp) selectOp(fr *frameState, x *ssa.Select) Val {
 					it.chanEvent("recv", ch)
 					res[ri] = ch.Buf[0]
 					ch.Buf = ch.Buf[1:]
+					ch.Recvd++
 					res[1] = Bool{C: true}
 				case ch.Closed:
 					it.chanEvent("recvclosed", ch)
@@ -341,6 +378,24 @@ func (it *Interp) selectOp(fr *frameState, x *ssa.Select) Val {
 		}
 	}
 	return res
+}
+
+// selectReady: some case of a blocking select can fire
+func (it *Interp) selectReady(fr *frameState, x *ssa.Select) bool {
+	for _, st := range x.States {
+		ch, _ := it.get(fr, st.Chan).(*ChanObj)
+		if ch == nil {
+			continue
+		}
+		if st.Dir == types.RecvOnly {
+			if ch.Closed || len(ch.Buf) > 0 || (ch.Ticker && ch.Budget > 0) {
+				return true
+			}
+		} else if !ch.Closed && len(ch.Buf) < ch.Cap {
+			return true
+		}
+	}
+	return false
 }
 
 func countRecv(x *ssa.Select) int {
